@@ -492,3 +492,29 @@ class spec_callees:
         for mod, name, fn in self.saved:
             setattr(mod, name, fn)
         return False
+
+
+class FlagMasks(Contract):
+    """Every public flag a module exports and the properties speak about survives that module's FLAG_MASK (a flag that is silently masked
+    off is ignored by every entry point).  The expected sets are written down here from the documentation, not read from the code."""
+    props = ('C01', 'C02', 'C14', 'C16', 'C17', 'C20', 'C07', 'C08')
+    EXPECT = {
+        'fnmatch': ('BRACE CASE DOTMATCH EXTMATCH FORCEUNIX FORCEWIN IGNORECASE MINUSNEGATE NEGATE NEGATEALL RAWCHARS SPLIT', ('C01', 'C17', 'C20', 'C07')),
+        'glob': ('BRACE CASE DOTGLOB DOTMATCH EXTGLOB EXTMATCH FOLLOW FORCEUNIX FORCEWIN GLOBSTAR GLOBSTARLONG GLOBTILDE IGNORECASE MATCHBASE MINUSNEGATE NEGATE NEGATEALL NODIR '
+                 'NODOTDIR NOUNIQUE RAWCHARS REALPATH SPLIT', ('C02', 'C17', 'C20', 'C07')),
+        'pathlib': ('BRACE CASE DOTGLOB DOTMATCH EXTGLOB EXTMATCH FOLLOW GLOBSTAR GLOBSTARLONG IGNORECASE MATCHBASE MINUSNEGATE NEGATE NEGATEALL NODIR NODOTDIR NOUNIQUE RAWCHARS '
+                    'REALPATH SPLIT', ('C16', 'C17', 'C20')),
+        'wcmatch': ('BRACE CASE DIRPATHNAME EXTMATCH FILEPATHNAME GLOBSTAR HIDDEN IGNORECASE MATCHBASE MINUSNEGATE RAWCHARS RECURSIVE SYMLINKS', ('C14', 'C17', 'C20')),
+    }
+
+    def lemmas(self):
+        import importlib
+        out = []
+        for mod, (names, props) in self.EXPECT.items():
+            m = importlib.import_module('wcmatch.' + mod)
+            missing = [n for n in names.split() if not hasattr(m, n) or not isinstance(getattr(m, n), int) or getattr(m, n) == 0 or (getattr(m, n) & ~m.FLAG_MASK)]
+            out.append((f'{mod}.FLAG_MASK_keeps_every_public_flag_of_the_module', props, z3.BoolVal(not missing)))
+        return out
+
+
+ALL.append(FlagMasks())
